@@ -119,6 +119,8 @@ def diag_problems(d, e, r):
         out.append(("diag/line-range", "reported line %d is outside the script (%d lines)" % (d.line, nlines)))
     if "\nt.sd:" in (d.msg or ""):
         out.append(("diag/two-headers", "more than one located header line"))
+    if "\n" in judge.quoted_user_text_removed(d.msg or "", r.text):
+        out.append(("diag/message-lines", "the diagnostic's message runs over more than one line: %r" % (d.msg[:200],)))
     bad = judge.internal_identifier(d.msg, r.text)
     if bad:
         out.append(("diag/internal-identifier", "message exposes an internal identifier %r: %r" % (bad, d.msg[:200])))
